@@ -194,6 +194,9 @@ func CanonNumber(lit string) string {
 }
 
 func (f *formatter) number(lit string) string {
+	if lit == "-0" && (f.o.CanonInts || f.o.CanonFloats) {
+		return "0" // both CanonicalizeRaw* options document -0 => 0 as a special case
+	}
 	if IsIntLit(lit) {
 		if f.o.CanonInts {
 			return CanonNumber(lit)
